@@ -1,6 +1,8 @@
 SPECIFICATION TraceSpec
 CONSTANTS
   N = 1
+  FreshOverwrites = TRUE
+  CleanCreate = TRUE
   AtomicSidecar = TRUE
 CONSTRAINT HW
 POSTCONDITION TraceAccepted
